@@ -38,3 +38,12 @@ Theorem C12_replay_reachable : forall by_identity loc owner evs st, reachable by
   reachable by_identity loc owner (snd (replay by_identity loc owner st evs)).
 Proof. exact replay_reachable. Qed.
 Print Assumptions C12_replay_reachable.
+
+(* the replay is not vacuous: it accepts a two-thread trace in which the second thread hits the first thread's entry, and
+   refuses a trace in which a thread uses a closure it never obtained *)
+Example C12_replay_accepts_and_refuses :
+  fst (replay true (fun _ => 0) (fun s => s) init
+         [EMiss 0 7 [EConst 1]; EPut 0 7 [EConst 1] 0; EFinish 0; EHit 1 7 [EConst 1] 0; EMiss 1 8 [ECloId 0]; EFinish 1]) = 6 /\
+  fst (replay true (fun _ => 0) (fun s => s) init
+         [EMiss 0 7 [EConst 1]; EPut 0 7 [EConst 1] 0; EMiss 1 8 [ECloId 0]]) = 2.
+Proof. split; vm_compute; reflexivity. Qed.
